@@ -150,8 +150,11 @@ def _validate(ctx, traces):
 
 def run(ctx):
     binp = vlib.cargo_build("x04")
-    vlib.tlc_mc(ctx, "FastIca", {"spec": "Spec", "constants": MODEL[ctx.tier], "invariants": INVS},
-                coverage_actions=ACTIONS)
+    if os.environ.get("VERIF_X04_SKIP_MC"):      # development only (mutant loops): the design model does not depend on the code
+        vlib.log("design model skipped (VERIF_X04_SKIP_MC)")
+    else:
+        vlib.tlc_mc(ctx, "FastIca", {"spec": "Spec", "constants": MODEL[ctx.tier], "invariants": INVS},
+                    coverage_actions=ACTIONS)
     cases = vlib.tlc_gen(ctx, "Gen_FastIca", {"constants": GEN[ctx.tier], "invariants": ["Emit"]})
     ctx.exhaustive = False
     ctx.extra["exhaustive_subdomains"] = [
